@@ -101,6 +101,38 @@ def obligations(r, tier, seed):
                               funcs=[GRAPH + "._initialize", "graphslam.edge.edge_%s.Edge%s.is_valid" % (kind, kind.capitalize()),
                                      "graphslam.edge.base_edge.BaseEdge._is_valid"]))
 
+    # ---- edges that arrive already bound (vertices= argument, or edge objects reused from another graph): construction must
+    #      bind them to THIS graph's vertices and validate them against THIS graph's vertices
+    for kind in ("odometry", "landmark"):
+        def prebound(k, kind=kind):
+            r_ = k.r
+            TP, TL = ("SE2", "SE2") if kind == "odometry" else ("SE2", "R2")
+
+            def mkedge(vertices):
+                if kind == "odometry":
+                    return r_.EdgeOdometry([4, 9], k.np.eye(3), mkpose(k, "SE2"), vertices)
+                return r_.EdgeLandmark([4, 9], k.np.eye(2), mkpose(k, "R2"), mkpose(k, "SE2"), 0, vertices)
+            stale = [r_.Vertex(4, mkpose(k, TP, 5.0)), r_.Vertex(9, mkpose(k, TL, 6.0))]
+            # (a) same ids and types in the new graph: accepted and re-bound to the new graph's own vertex objects
+            e = mkedge(list(stale))
+            mine = [r_.Vertex(9, mkpose(k, TL)), r_.Vertex(4, mkpose(k, TP))]
+            k.returns(lambda: r_.Graph([e], mine), "pre-bound consistent edge is accepted")
+            k.check(e.vertices is not None and e.vertices[0] is mine[1] and e.vertices[1] is mine[0], "pre-bound edge is re-bound to the graph's own vertices")
+            # (b) reused in a second graph whose vertex with that id has another pose type: rejected
+            e2 = mkedge(list(stale))
+            wrong = [r_.Vertex(4, mkpose(k, "R2")), r_.Vertex(9, mkpose(k, "R2" if kind == "odometry" else "SE3"))]
+            k.raises(lambda: r_.Graph([e2], wrong), "pre-bound edge whose ids name ill-typed vertices of this graph is rejected")
+            # (c) the graph has no vertex with one of the ids: rejected
+            e3 = mkedge(list(stale))
+            k.raises(lambda: r_.Graph([e3], [r_.Vertex(4, mkpose(k, TP))]), "pre-bound edge naming an id the graph does not have is rejected")
+            # (d) an edge object taken from one graph into another
+            g1 = r_.Graph([mkedge(None)], [r_.Vertex(4, mkpose(k, TP)), r_.Vertex(9, mkpose(k, TL))])
+            e4 = g1._edges[0]
+            mine2 = [r_.Vertex(4, mkpose(k, TP, 1.0)), r_.Vertex(9, mkpose(k, TL, 2.0))]
+            k.returns(lambda: r_.Graph([e4], mine2), "edge reused in a second graph is accepted")
+            k.check(e4.vertices[0] is mine2[0] and e4.vertices[1] is mine2[1], "reused edge is bound to the second graph's vertices")
+        obs.append(Ob("C18/pre-bound-edges/%s" % kind, prebound, funcs=[GRAPH + "._initialize"]))
+
     def canary(k):
         r_ = k.r
         vs = [r_.Vertex(0, mkpose(k, "SE2")), r_.Vertex(1, mkpose(k, "SE2"))]
